@@ -3,6 +3,7 @@ package proxyx
 import (
 	"context"
 	"math/rand"
+	"os"
 	"strings"
 	"testing"
 	"time"
@@ -106,13 +107,32 @@ func TestC05(t *testing.T) {
 	rnd := vt.Rand()
 	gen := func(yield func(vt.Case)) {
 		for _, c := range vt.TLCCases(t) {
+			c["kind"] = "prune"
 			yield(c)
 		}
 		for i, n := 0, vt.Pick(1500, 20000); i < n; i++ {
-			yield(c05Random(rnd))
+			c := c05Random(rnd)
+			c["kind"] = "prune"
+			yield(c)
+		}
+		// the endpoint set in front of the proxy: which stores a query can see
+		if p := os.Getenv("VERIF_CASES_STOREPRUNEENDPOINTSMC"); p != "" {
+			cs, err := vt.ReadNDJSON(p)
+			if err != nil {
+				t.Fatal(err)
+			}
+			for _, c := range cs {
+				yield(c)
+			}
+		}
+		for i, n := 0, vt.Pick(150, 2000); i < n; i++ {
+			yield(c05RandomEndpoints(rnd))
 		}
 	}
-	vt.Run(t, gen, nil, func(c vt.Case) vt.Event {
+	vt.Run(t, gen, c05EndpointsKF, func(c vt.Case) vt.Event {
+		if vt.Str(c["kind"]) == "endpoints" {
+			return c05Endpoints(c)
+		}
 		var clients []store.Client
 		var fakes []*fakeStore
 		for i, sv := range vt.List(c["stores"]) {
